@@ -2,3 +2,4 @@
 //! twins written differently) that the rules must see / must not see on every run.
 #![allow(dead_code, unused)]
 pub mod dispatch;
+pub mod parsing;
